@@ -739,7 +739,7 @@ func natLayers(tier string) []Layer {
 		layers = append(layers, Layer{
 			Name:   "N6-public-large",
 			Units:  len(vlens) * 7,
-			Bounds: fmt.Sprintf("Mul(q,v) and Quo(q·v + r, v), r in {0,1}, len(v) in %v words, v uniform S7 word (+exception), q of 2 and len(v)/2 words; prec in {19·len(q), 19·len(q)+1, 19·(len(q)+len(v))}; modes Even/ToZero/AwayFromZero/ToPositiveInf", vlens),
+			Bounds: fmt.Sprintf("Mul(q,v) and Quo(q·v + r, v), r in {0,1}, len(v) in %v words, v uniform S7 word (+exception), q of 2 and len(v)/2 words; prec in {19·len(q), 19·len(q)+1, 19·(len(q)+len(v)), 20, 38}; modes Even/ToZero/AwayFromZero/ToPositiveInf", vlens),
 			Run: func(c *Ctx, u int) {
 				installAdvPool(4096)
 				n := vlens[u/7]
@@ -766,7 +766,7 @@ func natLayers(tier string) []Layer {
 							vo := mkWords(false, v, 0, 0, 0)
 							qo := mkWords(false, q, 3, 0, 0)
 							vd, qd := vo.Build(), qo.Build()
-							precs := []uint32{uint32(19 * ql), uint32(19*ql + 1), uint32(19 * (ql + n))}
+							precs := []uint32{uint32(19 * ql), uint32(19*ql + 1), uint32(19 * (ql + n)), 20, 38} // the last two: far below the operand lengths
 							modes := []uint8{ToNearestEven, ToZero, AwayFromZero, ToPositiveInf}
 							binSweep(c, judgeValue, []int{opMul}, qo, vo, qd, vd, precs, modes)
 							pi := new(big.Int).Mul(qo.V.Coef, vo.V.Coef)
@@ -796,6 +796,29 @@ func natLayers(tier string) []Layer {
 							poolProblems(c, fmt.Sprintf("public n=%d", n))
 						}
 					}
+				}
+			},
+		})
+	}
+	// N8: public Mul/Quo of the long structured operands (all nines, 10^B+1, sparse, uniform) at precisions
+	// far below the operand lengths: the product must be exact before the one rounding
+	{
+		vals := largeOperands(thorough)
+		layers = append(layers, Layer{
+			Name:   "N8-public-long-factors-short-precision",
+			Units:  len(vals),
+			Bounds: fmt.Sprintf("Mul(x,y) and Quo(x,y) over all pairs of %d operands (31..130 words, 200 thorough: all nines, 10^B+1, sparse, uniform edge words, and 1–2-word partners) at precision {19, 20, 38, 57}; modes Even/ToZero/AwayFromZero/ToNegativeInf", len(vals)),
+			Run: func(c *Ctx, u int) {
+				xo := vals[u]
+				x := xo.Build()
+				for yi, yo := range vals {
+					if c.Done() {
+						return
+					}
+					if len(xo.Words) > 2 && len(yo.Words) > 2 && (u+yi)%2 != 0 {
+						continue
+					}
+					binSweep(c, judgeValue, []int{opMul, opQuo}, xo, yo, x, yo.Build(), []uint32{19, 20, 38, 57}, []uint8{ToNearestEven, ToZero, AwayFromZero, ToNegativeInf})
 				}
 			},
 		})
